@@ -1,5 +1,6 @@
 from common import *
 from l2 import *
+import g01gen
 
 
 def ref_of(fo):
@@ -20,7 +21,18 @@ def run(tier, replay=None):
     fc = build_tool("fc")
     m = L2Module("c01")
     fos = sorted(glob.glob(os.path.join(corpus, "*.fo")))
+    # generated family G01 (deterministic for seed and count)
+    seed = int(os.environ.get("VERIF_SEED", "1") or 1)
+    count = 24 if tier == "quick" else 160
+    g_fo, g_go, g_names = g01gen.gen(seed, count)
+    gdir = tempfile.mkdtemp(prefix="g01_", dir=scratch())
+    open(os.path.join(gdir, "g01.fo"), "w").write(g_fo)
+    fos.append(os.path.join(gdir, "g01.fo"))
+    ck.seed = seed
+    ck.bounds["generated_family_G01"] = "%d random programs (seed %d): let-normal-form bodies of 2..5 statements over int/bool with if/elif/else, &&/||, + - *const, comparisons, match on a 3-case union, pipe into a partial application, tuple destructuring, nested blocks to depth 2, tagged trace calls around sub-expressions" % (count, seed)
     m.transpile(fc, os.path.join(REPO, "pkg/pkg_all.foi"), fos)
+    if "g01.fo" in m.programs:
+        open(os.path.join(m.dir, "g01_ref.go"), "w").write(g_go)
     m.add_api()
     m.add_go([os.path.join(corpus, "common.go")] + [os.path.join(corpus, ref_of(p)[0]) for p in m.programs
                                                       if os.path.exists(os.path.join(corpus, ref_of(p)[0]))])
@@ -55,7 +67,7 @@ def run(tier, replay=None):
                         timeout=300 if tier == "quick" else 1500)
         ck.add_run(res)
         ck.handle_violations(res, rp, env=env, timeout=60)
-    ck.programs = len(m.programs)
+    ck.programs = len(m.programs) - 1 + (count if "g01.fo" in m.programs else 0)
     ck.extra["corpus_files"] = m.programs
     ck.extra["functions_compared"] = sum(len(re.findall(r"verifAssert\(", open(os.path.join(m.dir, f)).read()))
                                          for f in os.listdir(m.dir) if f.endswith("_ref.go"))
